@@ -31,6 +31,7 @@ type RunConfig struct {
 	Seed       int64
 	Trace      bool
 	Unwind     int
+	MaxCross   int // number of solver-decided assertion queries kept for cross-checking with other solvers
 }
 
 // FuncInfo describes one SSA function that was entered.
@@ -66,7 +67,12 @@ type Explorer struct {
 	Exhaustive   bool
 	Wall         time.Duration
 	SolverStats  struct{ Queries, Sat, Unsat, Unknown int }
+	Cross        []CrossQuery
+	crossSeen    int
 }
+
+// CrossQuery is one assertion query as a self-contained SMT-LIB2 script with the primary solver's answer.
+type CrossQuery struct{ Script, Expect string }
 
 func NewExplorer(prog *ssa.Program, cfg RunConfig) *Explorer {
 	if cfg.Workers <= 0 {
@@ -199,6 +205,18 @@ func (e *Explorer) runOne(sol *smt.Solver, prefix []Dec, infos *map[*ssa.Functio
 	in.Params = e.cfg.Params
 	in.RaceDetect = e.cfg.Race
 	in.Unwind = e.cfg.Unwind
+	if e.cfg.MaxCross > 0 {
+		in.CrossSink = func(script, expect string) {
+			e.mu.Lock()
+			defer e.mu.Unlock()
+			e.crossSeen++
+			if len(e.Cross) < e.cfg.MaxCross {
+				e.Cross = append(e.Cross, CrossQuery{script, expect})
+			} else if e.crossSeen%7 == 0 { // keep a spread over the run, not only the first queries
+				e.Cross[e.crossSeen%e.cfg.MaxCross] = CrossQuery{script, expect}
+			}
+		}
+	}
 	in.resetRun()
 	in.P = &PathState{prefix: prefix, spawn: e.push}
 	status := "ok"
